@@ -15,7 +15,7 @@ use rand::{CryptoRng, RngCore};
 use serde_json::{json, Value};
 use sha2::{Digest, Sha512};
 
-use crate::rec::{DH_LOG, DH_LOG_ON, EXT_FAIL, EXT_LOG, KSF_FAIL, KSF_INST, KSF_LOG};
+use crate::rec::{DH_LOG, DH_LOG_ON, EXT_FAIL, EXT_LOG, EXT_OPAQUE, KSF_FAIL, KSF_INST, KSF_LOG};
 
 // ---------------------------------------------------------------------------------------------
 // Ksf
@@ -231,17 +231,33 @@ impl<G: KeGroup> SecretKey<G> for ExtKey<G> {
 
     fn serialize(&self) -> GenericArray<u8, Self::Len> {
         let _ = ext_gate_nofail("serialize");
-        self.inner.serialize()
+        let mut out = self.inner.serialize();
+        if ext_opaque() {
+            for b in out.iter_mut() {
+                *b ^= 0xA5;
+            }
+        }
+        out
     }
 
     fn deserialize(input: &[u8]) -> Result<Self, InternalError<Self::Error>> {
         if let Some(e) = ext_gate("deserialize") {
             return Err(InternalError::Custom(e));
         }
+        let unwrapped: Vec<u8> = if ext_opaque() {
+            input.iter().map(|b| b ^ 0xA5).collect()
+        } else {
+            input.to_vec()
+        };
+        let input = unwrapped.as_slice();
         PrivateKey::<G>::deserialize(input)
             .map(|inner| ExtKey { inner })
             .map_err(InternalError::into_custom)
     }
+}
+
+fn ext_opaque() -> bool {
+    EXT_OPAQUE.with(|b| *b.borrow())
 }
 
 fn ext_gate_nofail(op: &str) {
